@@ -208,28 +208,37 @@ class InotifyEmitter(EventEmitter):
         # Always listen to delete self
         event_mask = InotifyConstants.IN_DELETE_SELF
 
+        # A recursive watch has to keep following the directories that are created in,
+        # moved into, renamed within or moved out of the tree, whatever events were asked for.
+        if self.watch.is_recursive:
+            event_mask |= InotifyConstants.IN_MOVE | InotifyConstants.IN_CREATE
+
+        # issubclass(): a base class (FileSystemEvent, FileSystemMovedEvent) selects all of its subclasses.
+        # Both halves of a move are always requested together: a matched pair is reported as a moved event,
+        # an unmatched half as a created or deleted event, and every move modifies the parent directories.
         for cls in self._event_filter:
-            if cls in {DirMovedEvent, FileMovedEvent}:
+            if issubclass(DirMovedEvent, cls) or issubclass(FileMovedEvent, cls):
                 event_mask |= InotifyConstants.IN_MOVE
-            elif cls in {DirCreatedEvent, FileCreatedEvent}:
+            if issubclass(DirCreatedEvent, cls) or issubclass(FileCreatedEvent, cls):
                 event_mask |= InotifyConstants.IN_MOVE | InotifyConstants.IN_CREATE
-            elif cls is DirModifiedEvent:
+            if issubclass(DirModifiedEvent, cls):
                 event_mask |= (
                     InotifyConstants.IN_MOVE
                     | InotifyConstants.IN_ATTRIB
                     | InotifyConstants.IN_MODIFY
                     | InotifyConstants.IN_CREATE
+                    | InotifyConstants.IN_DELETE
                     | InotifyConstants.IN_CLOSE_WRITE
                 )
-            elif cls is FileModifiedEvent:
+            if issubclass(FileModifiedEvent, cls):
                 event_mask |= InotifyConstants.IN_ATTRIB | InotifyConstants.IN_MODIFY
-            elif cls in {DirDeletedEvent, FileDeletedEvent}:
-                event_mask |= InotifyConstants.IN_DELETE
-            elif cls is FileClosedEvent:
+            if issubclass(DirDeletedEvent, cls) or issubclass(FileDeletedEvent, cls):
+                event_mask |= InotifyConstants.IN_MOVE | InotifyConstants.IN_DELETE
+            if issubclass(FileClosedEvent, cls):
                 event_mask |= InotifyConstants.IN_CLOSE_WRITE
-            elif cls is FileClosedNoWriteEvent:
+            if issubclass(FileClosedNoWriteEvent, cls):
                 event_mask |= InotifyConstants.IN_CLOSE_NOWRITE
-            elif cls is FileOpenedEvent:
+            if issubclass(FileOpenedEvent, cls):
                 event_mask |= InotifyConstants.IN_OPEN
 
         return event_mask
